@@ -36,7 +36,9 @@ RULE = ("scenario = (tree key, waiting-area cap, forest shape {chain, star, rand
         "serialize_public (full / up_to), unserialize_public of round trips, mutated and random bytes, "
         "receive_content}); distinct = distinct (shape, mix-in kinds, order class, size) signature plus the exact "
         "parent vector and arrival order; non-trivial = at least one token arrives before its parent or a bad token "
-        "is mixed in")
+        "is mixed in; multi-tree scenarios: 2-3 keys, one view and forest each, foreign / foreign-child / forged tokens, "
+        "every token offered to several views in a random interleaving as ONE shared Token object (80 %), plus direct "
+        "token.verify(key) calls")
 TRUSTED_BASE = [
     "hand-written Lean model of tokentree/tree.py, token.py, signed_object.py (Ipv8/C16/Model.lean), tied to the code by "
     "the correspondence run; tools/gen_c16.py (AST extraction of five constants) for GenConst.lean",
@@ -802,19 +804,21 @@ def feed_model(ctx: Ctx, runs: list[Run]):
 
 def canon_model(ln: str, reply: str, r: Run) -> str:
     op = ln.split(" ", 1)[0]
-    if op in ("gather", "unser", "state", "append"):
+    if op in ("gather", "unser", "state", "append", "offer", "vunser"):
         parts = reply.split(" ")
         out = []
         for p in parts:
             if p in ("invalid", "orphan"):
                 p = "none"
+            elif op == "offer" and p in ("shadow", "added"):
+                p = "some"
             elif p.startswith("E="):
                 p = "E=" + ",".join(sorted(x for x in p[2:].split(",") if x))
             out.append(p)
         return " ".join(out)
     if op == "missing":
         return ",".join(sorted(set(x for x in reply.split(",") if x)))
-    if op == "ser":
+    if op in ("ser", "vser"):
         return r.canon_ser(reply)
     return reply
 
@@ -888,6 +892,334 @@ def run_own(ctx: Ctx, n_scen: int, use_model: bool):
         r.run()
         runs.append(r)
         ctx.case(("own", tuple(sc["parents"]), sc["keytype"], len(sc["ops"])), True)
+    if use_model:
+        feed_model(ctx, runs)
+
+
+
+# ------------------------------------------------------------------------------------------------------------
+# several trees of different keys in one process; the SAME Token objects travel between them
+# ------------------------------------------------------------------------------------------------------------
+def make_multi_scenario(rng) -> dict:
+    """views of 2-3 keys; every key has its own forest; foreign tokens (signed by key j, hung into tree i), children
+    of foreign tokens, forged tokens; every token is offered to its signer's view and to other views in a random
+    interleaving, and (by default) it is one and the same Token object every time"""
+    if rng.random() < 0.9:
+        keytype, keys = "curve25519", [seeded_key(rng) for _ in range(rng.choice([2, 2, 3]))]
+    else:
+        keytype, keys = "very-low", list(VERY_LOW_KEYS)
+    sks = [load_key(k) for k in keys]
+    gen = [sha3(sk.pub().key_to_bin()) for sk in sks]
+    nk = len(keys)
+    toks, real_of = [], {k: [] for k in range(nk)}
+    for k in range(nk):
+        n = rng.randrange(1, 6)
+        pv = parents_for(rng, n, rng.choice(["chain", "star", "random", "random"]))
+        base = len(toks)
+        for i, p in enumerate(pv):
+            prev = gen[k] if p < 0 else tk_hid(toks[base + p])
+            t = mk_token(sks[k], prev, b"k%d-%d-%d" % (k, i, rng.randrange(1 << 30)))
+            t["signer"] = k
+            real_of[k].append(len(toks))
+            toks.append(t)
+    for _ in range(rng.randrange(1, 6)):
+        kind = rng.choice(["foreign", "foreign", "foreign", "foreign-child", "forged-sig"])
+        j = rng.randrange(nk)
+        i = rng.choice([x for x in range(nk) if x != j])
+        if kind == "foreign":       # signed by j, claims a place in i's tree
+            prev = gen[i] if rng.random() < 0.5 else tk_hid(toks[rng.choice(real_of[i])])
+            t = mk_token(sks[j], prev, b"foreign%d" % rng.randrange(1 << 30), label="foreign")
+            t["signer"] = j
+        elif kind == "foreign-child":   # signed by i, behind a foreign token (or, if none yet, behind i's own token)
+            fr = [x for x in toks if x["label"] == "foreign"]
+            par = rng.choice(fr) if fr else toks[rng.choice(real_of[i])]
+            t = mk_token(sks[i], tk_hid(par), b"fchild%d" % rng.randrange(1 << 30),
+                         label="foreign-child" if fr else "real")
+            t["signer"] = i
+        else:
+            b = toks[rng.choice(real_of[j])]
+            t = dict(b, sig=flip(bytes.fromhex(b["sig"]), rng).hex(), label="forged-sig", signer=None)
+        toks.append(t)
+    offers = []
+    for ti, t in enumerate(toks):
+        for v in range(nk):
+            pr = 0.9 if t["signer"] == v else (0.85 if t["label"] in ("foreign", "foreign-child") else 0.4)
+            if rng.random() < pr:
+                offers.append(["offer", v, ti])
+        if rng.random() < 0.15:
+            offers.append(["offer", rng.randrange(nk), ti])
+    rng.shuffle(offers)
+    if rng.random() < 0.4:      # the signer's view sees every token first
+        offers.sort(key=lambda o: 0 if toks[o[2]]["signer"] == o[1] else 1)
+    ops = []
+    for o in offers:
+        ops.append(o)
+        r = rng.random()
+        if r < 0.1:
+            ops.append(["touch", rng.randrange(nk), rng.randrange(len(toks))])
+        elif r < 0.2:
+            ops.append([rng.choice(["verify", "path"]), rng.randrange(nk), rng.randrange(len(toks)),
+                        rng.choice([1000, 1000, 1, 2, 5])])
+    for v in range(nk):
+        for _ in range(rng.randrange(1, 4)):
+            ops.append([rng.choice(["verify", "path"]), v, rng.randrange(len(toks)), 1000])
+        ops.append(["reload", v])
+    cap = 100 if rng.random() < 0.85 else rng.choice([1, 2, 3])
+    return {"multi": True, "keys": keys, "keytype": keytype, "cap": cap, "tokens": toks, "ops": ops,
+            "objects": "shared" if rng.random() < 0.8 else "fresh", "shape": "multi", "order": "interleaved",
+            "size_class": "multi", "parents": [], "mix": sorted({t["label"] for t in toks if t["label"] != "real"})}
+
+
+class MultiRun:
+    def __init__(self, ctx: Ctx, sc: dict, with_lines: bool):
+        from ipv8.attestation.tokentree.tree import TokenTree
+        from ipv8.keyvault.crypto import ECCrypto
+        self.ctx, self.sc, self.with_lines = ctx, sc, with_lines
+        self.TokenTree = TokenTree
+        self.crypto = ECCrypto()
+        self.sks = [load_key(k) for k in sc["keys"]]
+        self.pubs = [sk.pub() for sk in self.sks]
+        self.keybin = [p.key_to_bin() for p in self.pubs]
+        self.gen = [sha3(b) for b in self.keybin]
+        self.siglen = self.pubs[0].get_signature_length()
+        self.chunk = 64 + self.siglen
+        self.toks = sc["tokens"]
+        self.hid = [tk_hid(t) for t in self.toks]
+        self.lines, self.impl = [], []
+        self.objs: dict = {}
+        self.reg: set = set()
+        self.offered = [[] for _ in self.sks]
+        self.failed = False
+
+    canon_ser = Run.canon_ser
+
+    def line(self, ln, reply):
+        if self.with_lines:
+            self.lines.append(ln)
+            self.impl.append(reply)
+
+    def once(self, key, ln):
+        if self.with_lines and key not in self.reg:
+            self.reg.add(key)
+            self.line(ln, "ok")
+
+    def fields(self, i):
+        t = self.toks[i]
+        return tuple(bytes.fromhex(t[k]) for k in ("prev", "chash", "sig"))
+
+    def reg_chunk(self, v, prev, chash, sig):
+        self.once(("h", prev + chash + sig), f"h {hx(prev + chash + sig)} {hx(sha3(prev + chash + sig))}")
+        if self.with_lines and ("vk", v, prev + chash, sig) not in self.reg:
+            try:
+                ok = self.crypto.is_valid_signature(self.pubs[v], prev + chash, sig)
+            except Exception:
+                ok = False
+            self.once(("vk", v, prev + chash, sig), f"vk {hx(self.keybin[v])} {hx(prev + chash)} {hx(sig)} {1 if ok else 0}")
+
+    def name(self, v, i):
+        prev, chash, sig = self.fields(i)
+        self.once(("tok", i), f"tok t{i} {hx(prev)} {hx(chash)} {hx(sig)} none")
+        self.reg_chunk(v, prev, chash, sig)
+        return f"t{i}"
+
+    def obj(self, i):
+        """the Token object of descriptor i: one per scenario when objects are shared"""
+        from ipv8.attestation.tokentree.token import Token
+        if self.sc["objects"] == "shared" and i in self.objs:
+            return self.objs[i]
+        prev, chash, sig = self.fields(i)
+        signer = self.toks[i]["signer"]
+        o = Token.unserialize(prev + chash + sig, self.pubs[signer if signer is not None else 0])
+        self.objs[i] = o
+        return o
+
+    def good(self, v, t) -> bool:
+        return t["good"] and t["signer"] == v
+
+    def state(self, tree):
+        els = sorted(f"{id8(k)}:{'none' if x.content is None else hx(x.content)}" for k, x in tree.elements.items())
+        unc = [id8(sha3(u.previous_token_hash + u.content_hash + u.signature)) for u in tree.unchained]
+        return "E=" + ",".join(els) + " U=" + ",".join(unc)
+
+    def fail(self, sig, what):
+        self.failed = True
+        self.ctx.oracle_fail(sig, what, {"scenario": self.sc})
+
+    def fixpoint(self, v):
+        good = {tk_hid(t): bytes.fromhex(t["prev"]) for t in self.offered[v] if self.good(v, t)}
+        inside, changed = set(), True
+        while changed:
+            changed = False
+            for h, prev in good.items():
+                if h not in inside and (prev == self.gen[v] or prev in inside):
+                    inside.add(h)
+                    changed = True
+        return inside
+
+    def label_of(self, v, h):
+        for t in self.toks:
+            if tk_hid(t) == h:
+                return f"{t['label']} token signed by key {t['signer']}"
+        return "unknown token"
+
+    def check_view(self, v, tree, where):
+        fix = self.fixpoint(v)
+        keys = set(tree.elements)
+        for k, x in tree.elements.items():
+            if sha3(x.previous_token_hash + x.content_hash + x.signature) != k:
+                return self.fail("TokenTree.elements:key-mismatch", f"{where}: element stored under a wrong hash")
+            if k not in fix:
+                return self.fail("TokenTree.gather_token:foreign-token-accepted",
+                                 f"{where}: the tree of key {v} contains {id8(k)}, a {self.label_of(v, k)}, which is not "
+                                 f"signed by key {v} / not connected to its genesis through such tokens")
+            if x.previous_token_hash != self.gen[v] and x.previous_token_hash not in keys:
+                return self.fail("TokenTree.gather_token:dangling-token-accepted", f"{where}: element {id8(k)} dangles")
+        if len(tree.unchained) > self.sc["cap"]:
+            self.fail("TokenTree.gather_token:waiting-area-unbounded", f"{where}: {len(tree.unchained)} waiting")
+
+    def check_complete(self, v, tree, where):
+        waiting = {tk_hid(t) for t in self.offered[v] if self.good(v, t) and bytes.fromhex(t["prev"]) != self.gen[v]}
+        if len(waiting) > self.sc["cap"]:
+            return
+        fix = self.fixpoint(v)
+        if set(tree.elements) != fix:
+            return self.fail("TokenTree.gather_token:incomplete",
+                             f"{where}: the tree of key {v} has {len(tree.elements)} elements, the offered tokens signed by "
+                             f"it and connected to its genesis are {len(fix)}")
+        rest = {tk_hid(t) for t in self.offered[v] if self.good(v, t)} - fix
+        unc = {sha3(u.previous_token_hash + u.content_hash + u.signature) for u in tree.unchained}
+        if unc != rest:
+            self.fail("TokenTree.unchained:wrong-waiting-set", f"{where}: view {v} waits for {len(unc)} tokens, expected {len(rest)}")
+
+    def expected_path(self, v, tree, i, maxdepth):
+        t = self.toks[i]
+        if not self.good(v, t) or maxdepth <= 0:
+            return None
+        path, prev, steps = [self.hid[i]], bytes.fromhex(t["prev"]), 0
+        while True:
+            if prev == self.gen[v]:
+                return path
+            if prev not in tree.elements:
+                return None
+            steps += 1
+            if steps >= maxdepth:
+                return None
+            path.append(prev)
+            prev = tree.elements[prev].previous_token_hash
+
+    def new_tree(self, v):
+        tree = self.TokenTree(public_key=self.pubs[v])
+        if self.sc["cap"] != SPEC_CAP:
+            tree.unchained_max_size = self.sc["cap"]
+        return tree
+
+    def run(self):
+        sc = self.sc
+        nk = len(self.sks)
+        trees = [self.new_tree(v) for v in range(nk)]
+        self.trees = trees
+        if self.with_lines:
+            self.line(f"key {hx(self.gen[0])} {self.siglen}", "ok")
+            for v in range(nk):
+                self.once(("h", self.keybin[v]), f"h {hx(self.keybin[v])} {hx(self.gen[v])}")
+                self.line(f"view v{v} {hx(self.keybin[v])} {capw(sc['cap'])}", "ok")
+        try:
+            for n, op in enumerate(sc["ops"]):
+                self.cur = (n, op)
+                kind = op[0]
+                self.ctx.count(f"multi:{kind}")
+                if kind == "offer":
+                    _, v, i = op
+                    tok, nm = self.obj(i), self.name(v, i)
+                    seen_elsewhere = any(self.toks[i] in self.offered[w] for w in range(nk) if w != v)
+                    self.offered[v].append(self.toks[i])
+                    res = trees[v].gather_token(tok)
+                    self.ctx.count("multi:offer:%s:%s%s" % ("own-key" if self.toks[i]["signer"] == v else "other-key",
+                                                             "accepted" if res is not None else "none",
+                                                             ":seen-by-another-tree-before" if seen_elsewhere else ""))
+                    self.line(f"offer v{v} {nm}", f"{'none' if res is None else 'some'} {self.state(trees[v])}")
+                    if res is not None and not self.good(v, self.toks[i]):
+                        self.fail("TokenTree.gather_token:foreign-token-accepted",
+                                  f"op {n}: gather_token of the tree of key {v} returned a token for a "
+                                  f"{self.toks[i]['label']} token signed by key {self.toks[i]['signer']}"
+                                  f"{' (the object had been offered to another tree before)' if seen_elsewhere else ''}")
+                    self.check_view(v, trees[v], f"after op {n} offer(view {v}, token {i})")
+                elif kind == "touch":     # AbstractSignedObject.verify directly, against an arbitrary key
+                    _, v, i = op
+                    r = self.obj(i).verify(self.pubs[v])
+                    self.ctx.count(f"multi:touch:{r}")
+                    if r != self.good(v, self.toks[i]):
+                        self.fail("AbstractSignedObject.verify:wrong-key-answer",
+                                  f"op {n}: verify(key {v}) of a {self.toks[i]['label']} token signed by key "
+                                  f"{self.toks[i]['signer']} is {r}")
+                elif kind in ("verify", "path"):
+                    _, v, i, depth = op
+                    tok, nm = self.obj(i), self.name(v, i)
+                    exp = self.expected_path(v, trees[v], i, depth)
+                    if kind == "verify":
+                        r = trees[v].verify(tok) if depth == SPEC_DEPTH else trees[v].verify(tok, depth)
+                        self.line(f"vverify v{v} {nm} {depthw(depth)}", "true" if r else "false")
+                        self.ctx.count(f"multi:verify:{r}:{'own-key' if self.toks[i]['signer'] == v else 'other-key'}")
+                        if bool(r) != (exp is not None):
+                            self.fail("TokenTree.verify:false-positive" if r else "TokenTree.verify:false-negative",
+                                      f"op {n}: verify by the tree of key {v} of a {self.toks[i]['label']} token signed by key "
+                                      f"{self.toks[i]['signer']} (depth {depth}) is {r}")
+                    else:
+                        r = trees[v].get_root_path(tok) if depth == SPEC_DEPTH else trees[v].get_root_path(tok, depth)
+                        got = [sha3(x.previous_token_hash + x.content_hash + x.signature) for x in r]
+                        self.line(f"vpath v{v} {nm} {depthw(depth)}", ",".join(id8(h) for h in got))
+                        if got != (exp or []):
+                            self.fail("TokenTree.get_root_path:wrong-path",
+                                      f"op {n}: get_root_path by the tree of key {v} of a {self.toks[i]['label']} token signed "
+                                      f"by key {self.toks[i]['signer']} has {len(got)} tokens, expected {len(exp or [])}")
+                elif kind == "reload":
+                    _, v = op
+                    self.check_complete(v, trees[v], f"before reload of view {v}")
+                    sbytes = trees[v].serialize_public()
+                    self.line(f"vser v{v}", self.canon_ser(hx(sbytes)))
+                    for j in range(0, len(sbytes) - self.chunk + 1, self.chunk):
+                        self.reg_chunk(v, sbytes[j:j + 32], sbytes[j + 32:j + 64], sbytes[j + 64:j + self.chunk])
+                    t2 = self.new_tree(v)
+                    ok = t2.unserialize_public(sbytes)
+                    self.line(f"view r{v} {hx(self.keybin[v])} {capw(sc['cap'])}", "ok")
+                    self.line(f"vunser r{v} {hx(sbytes)}", f"{'true' if ok else 'false'} {self.state(t2)}")
+                    fix = self.fixpoint(v)
+                    if set(t2.elements) - fix:
+                        self.fail("TokenTree.unserialize_public:roundtrip",
+                                  f"the public dump of the tree of key {v} reloads to {len(t2.elements)} elements of which "
+                                  f"{len(set(t2.elements) - fix)} are not signed by that key / connected to its genesis")
+                    elif set(t2.elements) != set(trees[v].elements) or not ok:
+                        self.fail("TokenTree.unserialize_public:roundtrip",
+                                  f"reload of view {v}: {len(t2.elements)} elements (flag {ok}), the tree had {len(trees[v].elements)}")
+                else:
+                    raise ValueError(kind)
+        except Exception as e:
+            n, op = self.cur
+            self.fail(f"TokenTree.{op[0]}:raises", f"op {n} {op[:3]} raised {type(e).__name__}: {str(e)[:200]}")
+            if self.with_lines:
+                self.lines, self.impl = self.lines[:len(self.impl)], self.impl[:len(self.lines)]
+
+
+def run_multi(ctx: Ctx, n_scen: int, use_model: bool):
+    runs = []
+    for k in range(n_scen):
+        sc = make_multi_scenario(ctx.rng)
+        ctx.count("shape:multi")
+        ctx.count(f"multi:objects:{sc['objects']}")
+        ctx.count(f"multi:keys:{len(sc['keys'])}:{sc['keytype']}")
+        for m in sc["mix"]:
+            ctx.count(f"multi:mix:{m}")
+        r = MultiRun(ctx, sc, use_model)
+        r.run()
+        runs.append(r)
+        ctx.case(("multi", len(sc["tokens"]), tuple(tuple(o[:3]) for o in sc["ops"] if o[0] == "offer")[:24],
+                  sc["objects"]), True)
+        if k < 1:
+            ctx.sample({"multi": True, "keys": len(sc["keys"]), "objects": sc["objects"],
+                        "tokens": [(t["label"], t["signer"]) for t in sc["tokens"]], "ops": sc["ops"][:14]})
+        if len(runs) >= 50:
+            feed_model(ctx, runs) if use_model else None
+            runs = []
     if use_model:
         feed_model(ctx, runs)
 
@@ -1002,6 +1334,7 @@ def run(ctx: Ctx):
     if ctx.thorough():
         run_exhaustive(ctx, 4, ctx.model_ok, mixins=True)
     run_own(ctx, ctx.scale(150, 1000), ctx.model_ok)
+    run_multi(ctx, ctx.scale(250, 2000), ctx.model_ok)
     run_random(ctx, ctx.scale(500, 4000), ctx.scale(3, 5), ctx.model_ok)
 
 
@@ -1010,12 +1343,19 @@ def search(ctx: Ctx, reason: str):
     run_exhaustive(ctx, 4 if ctx.tier == "quick" else 5, False, mixins=False)
     run_exhaustive(ctx, 4, False, mixins=True)
     run_own(ctx, 300, False)
+    run_multi(ctx, 600, False)
     run_random(ctx, ctx.scale(1200, 4000), 5, False)
 
 
 def replay(ctx: Ctx, rec: dict):
     r = rec.get("replay", rec)
     sc = r["scenario"]
+    if sc.get("multi"):
+        m = MultiRun(ctx, sc, False)
+        m.run()
+        print("replay: property " + ("FAILS" if ctx.failures else "holds") + " on the replayed multi-tree scenario")
+        ctx.case(("replay",), True)
+        return
     run1 = Run(ctx, sc, False)
     run1.run()
     run1.check_complete(run1.tree, "replay") if not any(op[0] in ("reload", "reload_upto", "unser_mut") for op in sc["ops"]) else None
